@@ -38,4 +38,19 @@ CHECKS = {
         note=("trusted: pyvc encoding; abstract declaration equality; callers do not mutate returned dictionaries; "
               "termination of the worklist loops; get_decl_type not under contract"),
         design='DESIGN.md section 4 (C16)'),
+    'C15': dict(
+        level='proof',
+        technique='deductive verification: contracts on check_oracle / update_stats / get_batches / stop_condition / _run / process_res over a ghost file system and ghost analysis result, loop invariants with a ghost set of processed programs, VCs discharged by z3; exhaustive small-batch runs of the real driver with a stubbed compiler as cross-check',
+        text=("check_oracle is proved, for every batch and every compiler verdict, to report a program iff the tool failed on "
+              "it, or an expected-to-compile file has a compiler error, or an expected-to-fail file has none, or the compiler "
+              "crashed (then all programs of the batch); the messages (compiler error / SHOULD NOT BE COMPILED prefix / crash "
+              "output), the saved test case per compiler-related fault, the removed scratch and batch directories, and that no "
+              "other path is touched; every shutil.copytree/rmtree precondition holds (no FileExistsError). update_stats, "
+              "get_batches, stop_condition are proved exact; the batch loop _run keeps passed+failed equal to the number of "
+              "programs handed to the generator, passes disjoint pid ranges, and process_res (sequential) maps pids to results "
+              "and records exactly the reported programs in STATS['faults'] / faults.json."),
+        note=("sequential mode only (run_parallel is outside this family); trusted external contracts for os.path/shutil/"
+              "time/run_command, gen_program (assumed behaviour), save_stats, and C14's analyze_compiler_output; sys.exit under "
+              "--debug is abrupt termination"),
+        design='DESIGN.md section 4 (C15)'),
 }
